@@ -87,7 +87,7 @@ class Ref:
 class Lane(LaneBase):
     PROP = 'C10'
     AUDIT = 'CG/Audit/C10.lean'
-    USE_TOPO = False          # hook for the topological-order lines (handler token `topo`), see topo_lines()
+    USE_TOPO = True           # hook for the topological-order lines (handler token `topo`), see topo_lines()
     THEOREMS = [
         'CG.C10.descendants_iff', 'CG.C10.ancestors_iff', 'CG.C10.isAncestor_iff', 'CG.C10.isDescendant_iff',
         'CG.C10.commonAncestors_iff', 'CG.C10.commonDescendants_iff',
@@ -103,6 +103,8 @@ class Lane(LaneBase):
         'CG.C10.isAncestor_consistent', 'CG.C10.isDescendant_consistent',
         'CG.C10.nodesBetween_eq_paths_union',
         'CG.C10.queries_order_invariant', 'CG.C10.queries_rename_invariant',
+        'CG.TopoThm.allTopo_iff', 'CG.TopoThm.isTopoOrder_iff', 'CG.TopoThm.linExt_path_forward',
+        'CG.TopoThm.exists_linExt', 'CG.TopoThm.allTopo_ne_nil_iff',
     ]
     RULE = ('a case is one graph with all its queries; non-trivial = the graph has at least one directed edge; '
             'distinct by (family, construction sequence)')
@@ -313,6 +315,15 @@ class Lane(LaneBase):
             allo = g.get_topological_order(return_all=True)
             lines.append(f'topo all {head}')
             impl.append(hxlistlist(sorted(allo)))
+            # oracle (brute force, no networkx): all and only the linear extensions, no duplicates
+            if len(nodes) <= 6:
+                import itertools
+                pos_ok = lambda o: all(o.index(a) < o.index(b) for a, b in edges)
+                want = sorted(list(o) for o in itertools.permutations(sorted(nodes)) if pos_ok(list(o)))
+                if sorted(allo) != want:
+                    self._topo_fail = f'get_topological_order(return_all=True) is not the set of linear extensions of {edges}'
+                if not (sorted(order) == sorted(nodes) and pos_ok(list(order))):
+                    self._topo_fail = f'get_topological_order() = {order} is not a topological order of {edges}'
         except Exception as e:
             lines.append(f'topo all {head}')
             impl.append(_err(e))
@@ -422,9 +433,12 @@ class Lane(LaneBase):
         if fam == 'relab' and 'twin' in case:
             oracle += self.twin_check(case, recs)
         if self.USE_TOPO and fam in ('dag', 'relab'):
+            self._topo_fail = None
             tl, ti = self.topo_lines(g, nodes, directed)
             lines += tl
             impl += ti
+            if self._topo_fail:
+                oracle.append(self._topo_fail)
         ne = len(directed)
         tags = [f'fam:{fam}', f'fam:{fam}/n:{len(nodes)}', f'directed_edges:{min(ne, 8)}{"+" if ne >= 8 else ""}']
         if fam in ('dag', 'relab'):
